@@ -108,6 +108,16 @@ def gen_bt_dtypes(repo):
     return m
 
 
+def gen_complex_dtypes(repo):
+    m = T.Module(f"{repo}/src/nitypes/complex/_dtypes.py", "Gen.ComplexDtypes")
+    m.translate_dtype_fields("ComplexInt32DType")
+    m2 = T.Module(f"{repo}/src/nitypes/complex/_conversion.py", "Gen.ComplexDtypes")
+    m2.translate_expr_table("_COMPLEX_DTYPES")
+    m2.translate_expr_table("_FIELD_DTYPE")
+    m.out += m2.out
+    return m
+
+
 def gen_digital_state(repo):
     m = T.Module(f"{repo}/src/nitypes/waveform/_digital/_state.py", "Gen.DigitalState")
     m.translate_table_constants(["_CHAR_TABLE", "_STATE_TEST_TABLE"])
@@ -131,6 +141,7 @@ MODULES = [
     ("DateTime", lambda repo, deps: gen_datetime(repo, deps["TimeValueTuple"], deps["TimeDelta"]),
      ["TimeValueTuple", "TimeDelta"]),
     ("BtDtypes", lambda repo, deps: gen_bt_dtypes(repo), []),
+    ("ComplexDtypes", lambda repo, deps: gen_complex_dtypes(repo), []),
     ("DigitalState", lambda repo, deps: gen_digital_state(repo), []),
     ("Port", lambda repo, deps: gen_port(repo), []),
 ]
